@@ -271,6 +271,8 @@ add(Contract(
     raises={'PacketError': ["exc.was_error_found_in_unpacking_phase == True", "StackWF(exc)",
                             "fresh_since(exc) and fresh_since(exc.fields_stack)"],
             'OtherException*': []},     # only through finding K12a of the nested unpack_impl (C12)
+    # the nested packet is attached to its parent BEFORE it is parsed: callbacks of deeper fields reach it through root / the parent
+    call_asserts={'Packet.unpack_impl': ["hasslot(pkt, self.field_name) and same(slot(pkt, self.field_name), arg_self)"]},
     modifies=['slot(pkt, self.field_name)'], allocates=True, returns='int'))
 
 add(Contract(
@@ -662,3 +664,25 @@ add(Contract(
     modifies=['self.field_name', 'self.descriptor_name', 'self.move_arg', 'self.reference', 'self.is_alignment',
               "asref(self.descriptor, 'Auto').descriptor_name", "asref(self.descriptor, 'Auto').real_field_name"],
     allocates=True, returns='list'))
+
+# ---------------------------------------------------------------- Data._compile (C06): which decoder a declaration gets
+# the sizing mode chosen at declaration time selects exactly one of the five unpack bodies; the class option
+# search_buffer_length (None or 0: no limit) is taken as it is - the window is not widened, narrowed or defaulted
+add(Contract(
+    'field:Data._compile',
+    params={'self': 'ref:Data', 'position': 'int', 'fields': 'list', 'bisturi_conf': 'conf'},
+    requires=["isnone(self.byte_count) == (not isnone(self.until_marker))"],
+    ensures=[
+        "implies(isint(old(self.byte_count)), self.unpack == 'field:Data._unpack_fixed_size'"
+        "        and same(self.struct_code, strfmt('%is', self.byte_count)) and same(self.byte_count, old(self.byte_count)))",
+        "implies(not isint(old(self.byte_count)) and isinst(old(self.byte_count), 'Field'), self.unpack == 'field:Data._unpack_variable_size_field')",
+        "implies(not isnone(old(self.byte_count)) and not isint(old(self.byte_count)) and not isinst(old(self.byte_count), 'Field'),"
+        "        self.unpack == 'field:Data._unpack_variable_size_callable' and iscallable(self.byte_count))",
+        "implies(isbytes(self.until_marker), self.unpack == 'field:Data._unpack_with_string_marker')",
+        "implies(not isnone(self.until_marker) and not isbytes(self.until_marker), self.unpack == 'field:Data._unpack_with_regexp_marker')",
+        "implies(isnone(old(self.byte_count)), same(self._search_buffer_length, conf_get(bisturi_conf, 'search_buffer_length', None)))",
+        "same(self.until_marker, old(self.until_marker))",
+        "len(result) >= 1 and result[0] == self.field_name",
+    ],
+    raises={'AssertionError': [], 'TypeError': ["isnone(old(self.byte_count))"], 'OtherException*': []},
+    modifies=['self.struct_code', 'self.unpack', 'self.byte_count', 'self._search_buffer_length'], allocates=True, returns='list'))
